@@ -171,14 +171,68 @@ package sizes
 //@ lemma threshold_monotone: forall v uint64, sc, t1, t2 float64 :: sc > 0.0 && finite(sc) && t1 <= t2 && !(float64(v) / sc < t2) ==> !(float64(v) / sc < t1)
 //@ lemma verbose_shows_all: forall v uint64, sc float64 :: sc > 0.0 && finite(sc) ==> !(float64(v) / sc < 0.0)
 
-//@ func (*Path).TreePrefix
-//@   pure
-//@ func (*Path).Path
-//@   pure
+// ---------------------------------------------------------------- path_resolver.go: descriptions (C08)
+// Descriptions are specified on content keys (catkeys = concatenation) from
+// git's revision grammar (A-GIT-REVSYNTAX), not from the code:
+//   an object named directly by N                      ->  N
+//   the root tree / an object T peeled from X          ->  <best(X)>^{<type>}
+//   entry n of tree T                                  ->  <prefix(T)>n
+//   prefix(root tree of commit C)                      ->  <best(C)>:        (C itself: N: or <oid>:)
+//   prefix(tree T' entry n, i.e. a subtree)            ->  <prefix(T')>n/
+//   prefix(tree named directly by N)                   ->  N:   (N/ if N is already <rev>:<path>, N if it ends in ':')
+//   prefix(tree with neither parent nor name)          ->  <oid>:
+//   best(X) = description of X if it has one, else its object id
+//@ spec treeish(p *Path) bool = p.objectType == "blob" || p.objectType == "tree"
+//@ spec commitish(p *Path) bool = p.objectType == "commit" || p.objectType == "tag"
+
 //@ func (*Path).BestPath
 //@   pure
+//@   call 0 Path).Path as pth
+//@   ensures len(pth) > 0 ==> same(result, pth)
+//@   ensures len(pth) == 0 ==> keyof(result) == oidHexK(p.OID) && len(result) == 40
+//@   ensures len(result) > 0
+
+//@ func (*Path).Path
+//@   pure
+//@   call 0 BestPath as bpA
+//@   call 1 BestPath as bpB
+//@   call 0 TreePrefix as tp
+//@   ensures (treeish(p) && p.parent != nil && len(p.relativePath) == 0) || (commitish(p) && p.parent != nil) ==> (bpA_reached || bpB_reached) && (bpA_reached ==> keyof(result) == catkeys(bpA, "^{", p.objectType, "}")) && (bpB_reached ==> keyof(result) == catkeys(bpB, "^{", p.objectType, "}"))
+//@   ensures treeish(p) && p.parent != nil && len(p.relativePath) > 0 ==> tp_reached && keyof(result) == catkeys(tp, p.relativePath)
+//@   ensures (treeish(p) || commitish(p)) && p.parent == nil && len(p.relativePath) > 0 ==> same(result, p.relativePath)
+//@   ensures (treeish(p) || commitish(p)) && p.parent == nil && len(p.relativePath) == 0 ==> len(result) == 0
+//@   ensures !treeish(p) && !commitish(p) ==> len(result) == 0
+
+//@ func (*Path).TreePrefix
+//@   pure
+//@   call 0 TreePrefix as tpA
+//@   call 1 TreePrefix as tpB
+//@   ensures treeish(p) && p.parent != nil && len(p.relativePath) == 0 ==> (tpA_reached || tpB_reached) && (tpA_reached ==> same(result, tpA)) && (tpB_reached ==> same(result, tpB))
+//@   ensures treeish(p) && p.parent != nil && len(p.relativePath) > 0 ==> (tpA_reached || tpB_reached) && (tpA_reached ==> keyof(result) == catkeys(tpA, p.relativePath, "/")) && (tpB_reached ==> keyof(result) == catkeys(tpB, p.relativePath, "/"))
+//@   ensures treeish(p) && p.parent == nil && len(p.relativePath) > 0 && p.relativePath[len(p.relativePath)-1] == ':' ==> same(result, p.relativePath)
+//@   ensures treeish(p) && p.parent == nil && len(p.relativePath) > 0 && p.relativePath[len(p.relativePath)-1] != ':' && hasColon(p.relativePath) ==> keyof(result) == catkeys(p.relativePath, "/")
+//@   ensures treeish(p) && p.parent == nil && len(p.relativePath) > 0 && p.relativePath[len(p.relativePath)-1] != ':' && !hasColon(p.relativePath) ==> keyof(result) == catkeys(p.relativePath, ":")
+//@   ensures treeish(p) && p.parent == nil && len(p.relativePath) == 0 ==> keyof(result) == catkeys(oidHexK(p.OID), ":")
+//@   ensures commitish(p) && p.parent == nil && len(p.relativePath) > 0 ==> keyof(result) == catkeys(p.relativePath, ":")
+//@   ensures commitish(p) && p.parent == nil && len(p.relativePath) == 0 ==> keyof(result) == catkeys(oidHexK(p.OID), ":")
+
+// hasColon(s): s contains ':' (then s is already of the form <rev>:<path>).
+//@ spec hasColon(s string) bool = containsK(keyof(s), keyof(":"))
+
 //@ func (*Path).String
 //@   pure
+//@   call 0 Path).Path as pth
+//@   ensures len(pth) == 0 ==> keyof(result) == oidHexK(p.OID)
+//@   ensures len(pth) > 0 ==> keyof(result) == catkeys(oidHexK(p.OID), " (", pth, ")")
+
+// JSON: the text is what encoding/json makes of the description string
+// (C19: valid JSON for any bytes is then A-STD-JSON).
+//@ func (*Path).MarshalJSON
+//@   pure
+//@   call 0 Path).String as str
+//@   call 0 json.Marshal as js
+//@   call 0 json.Marshal assert dyntype(arg_0, "string") && same(unbox(arg_0, "string"), str)
+//@   ensures same(result0, js0) && result1 == js1
 
 //@ func (*item).Footnote
 //@   requires nameStyle >= 0 && nameStyle <= 2
@@ -210,6 +264,8 @@ package sizes
 //@   ensures stat.Value == hval(i.value) && stat.ReferenceValue == i.scale
 //@   ensures stat.LevelOfConcern == float64(hval(i.value)) / i.scale
 //@   ensures same(stat.Description, i.description) && same(stat.Unit, i.unit)
+//@   call 0 json.Marshal as js
+//@   ensures same(result0, js0) && result1 == js1
 
 //@ property C19: NewFootnotes (*Footnotes).CreateCitation (*item).Emit
 //@ property C11: (*item).levelOfConcern (*item).Emit (*item).MarshalJSON (*item).Footnote lemma/threshold_monotone lemma/verbose_shows_all
@@ -540,3 +596,6 @@ package sizes
 //@ lemma last_wins: forall a, b, c float64 :: same(ite(true, b, a), ite(true, b, c))
 
 //@ property C14: (*Threshold).Set (*thresholdFlagValue).Set (*NameStyle).Set lemma/last_wins
+
+//@ property C08: (*Path).BestPath (*Path).Path (*Path).TreePrefix (*Path).String setPath (*HistorySize).recordBlob (*HistorySize).recordTree (*HistorySize).recordCommit (*HistorySize).recordTag (*item).Footnote
+//@ property C19: (*Path).MarshalJSON (*item).MarshalJSON
